@@ -7,7 +7,7 @@ SD=$1; WT=$2; shift 2
 T=$(ls $SD/*_test.go | head -1)
 PKG=$(grep -m1 '^package ' $T | awk '{print $2}')
 case $PKG in
-  node) DIR=node;; pegnet) DIR=node/pegnet;; conversions|conversions_test) DIR=node/conversions;; fat2|fat2_test) DIR=fat/fat2;; cmd) DIR=cmd;; srv|srv_test) DIR=srv;; *) echo "unknown package $PKG"; exit 3;;
+  node) DIR=node;; pegnet) DIR=node/pegnet;; conversions|conversions_test) DIR=node/conversions;; fat2|fat2_test) DIR=fat/fat2;; cmd|cmd_test) DIR=cmd;; srv|srv_test) DIR=srv;; *) echo "unknown package $PKG"; exit 3;;
 esac
 cd $WT && git checkout -q -- . && git clean -fdq
 cp $T $DIR/zz_seed_demo_test.go
